@@ -24,6 +24,8 @@ func main() {
 	runs := flag.Int("runs", 1, "histories per run (c01)")
 	replay := flag.String("replay", "", "replay a case description")
 	noBg := flag.Bool("nobg", false, "no background load (c01)")
+	tieRuns := flag.Int("tieruns", 0, "election-tie histories per run (c01)")
+	tieBlocks := flag.Int("tieblocks", 14, "blocks per election-tie history (c01)")
 	flag.Parse()
 	switch *mode {
 	case "smoke":
@@ -34,7 +36,7 @@ func main() {
 			defer os.RemoveAll(d)
 			*out = d
 		}
-		c01Main(*seed, *out, *blocks, *runs, *replay, *noBg)
+		c01Main(*seed, *out, *blocks, *runs, *replay, *noBg, *tieRuns, *tieBlocks)
 	case "smoke2":
 		smoke2(*seed)
 	default:
